@@ -19,26 +19,28 @@ def expected_records(uni, us, states):
     recs = []
     for s in states:
         recs.append({"key": s["key"], "lab": s["plab"],
-                     "slots": s["slots"], "syms": s["syms"]})
+                     "slots": s["slots"], "syms": s["syms"], "pleaf": s["pleaf"], "psize": s["psize"]})
     return recs
 
 
-def run_one(tag, uni, us, states, maxeqs, policy, eager, workers=4, timeout=1500):
+def run_one(tag, uni, us, states, maxeqs, policy, eager, workers=4, timeout=1500, analysis="none"):
     cfg = open(os.path.join(SPEC, "MC_EGraphOp.cfg")).read()
     defs = {"MCOpTermPool": uni["terms"], "MCOpEqPool": uni["eqs"], "MCOpInsBase": tla_set(uni["base"]),
             "MCOpMaxEqs": maxeqs, "MCExpected": tla_set(expected_records(uni, us, states)),
-            "MCOpEager": eager, "MCPolicy": policy}
+            "MCOpEager": eager, "MCPolicy": policy, "MCAnalysis": analysis}
     logp, st = run_tlc_root(tag, "MC_EGraphOp", defs, cfg, workers=workers, timeout=timeout, xss=True)
     bad = list(tlcout.tagged_lines(logp, "OPBAD"))
     return logp, st, bad
 
 
-def run_tier(tier, tables, tag):
+def run_tier(tier, tables, tag, only=None):
     """design-level refinement EGraphOp => SlottedCC over the hand-written and the seeded random universes; returns a
     coverage dict; raises ToolError when the two models disagree"""
     import concurrent.futures
     jobs = []
     for u, (uni, tpath, st, states, upath) in tables.items():
+        if u.endswith("sim") or (only is not None and u not in only):
+            continue
         us = json.load(open(tpath))["us"]
         if not u.startswith("U"):          # seeded random universes: small, <=2 (quick) / <=3 (thorough) equations
             top = 2 if tier == "quick" else 3
@@ -52,8 +54,9 @@ def run_tier(tier, tables, tag):
 
     def one(j):
         u, uni, us, sts, me, pol, eager = j
+        # the analysis of the model: leaf operators (join = union) with fifo, smallest size (join = min) with lifo
         return j, run_one("%s_egop_%s_%s_%s" % (tag, u, pol, "eager" if eager else "lazy"), uni, us, sts, me, pol, eager,
-                          workers=4 if tier == "quick" else 8, timeout=3000)
+                          workers=4 if tier == "quick" else 8, timeout=3000, analysis="leaves" if pol == "fifo" else "size")
     t0 = time.time()
     with concurrent.futures.ThreadPoolExecutor(max_workers=4 if tier == "quick" else 2) as ex:
         for j, (logp, st, bad) in ex.map(one, jobs):
@@ -67,6 +70,8 @@ def run_tier(tier, tables, tag):
     return {"what": "design level: every reachable quiescent state of the operational model spec/EGraphOp.tla (union-find with slot maps, "
                     "shrink_slots, move_to, handle_pending, determine_self_symmetries; pending list served fifo and lifo) denotes exactly the "
                     "congruence of SlottedCC.tla for the same equations (equalities, slot sets, symmetry groups of all pool terms), "
+                    "its analysis data (update_analysis, pending entries of type full / only, join in move_to; leaf operators with fifo, smallest size "
+                    "with lifo) are the least fixpoints LeafOps / MinCost(astsize) of SlottedCC.tla, "
                     "satisfies the structural invariants of check.rs and keeps old handles valid",
             "runs": res, "states": sum(r["states"] for r in res.values())}
 
